@@ -21,7 +21,8 @@ from vlib.vsim import Meta, Uninit, Unsupported, fmt
 PID = 'C14'
 RULE = ("configs: Fifo N in {2,3,4,5,7,8} x element type {Unsigned[2] (closure), Unsigned[8] (unique ids)} in one context; "
         "Fifo N in {2,3,4,5,8} x (tx_delay, rx_delay) in {0..3}^2 \\ (0,0) in two contexts; Stack N in {1,2,3,4,5,8} x "
-        "{NO_OVERFLOW, DROP_OLD}.  Each config: breadth-first joint-state exploration of all legal commands (budget) "
+        "{NO_OVERFLOW, DROP_OLD}; two-context consumers that pop twice per round (coroutine with two receive(), two guarded pops); "
+        "Fifo + Stack of std.Array elements fed with array slices.  Each config: breadth-first joint-state exploration of all legal commands (budget) "
         "+ random runs.  distinct_nontrivial = configs explored with >= 20 joint states or >= 100 transferred elements.")
 ASSUMPTIONS = ["vsim executes the emitted VHDL faithfully", "the harness never breaks a documented precondition (no push when "
                "full, no pop when empty); the emitted assert statements cross-check that"]
